@@ -157,4 +157,13 @@ example :
          ⟨["Justfile"], true, false⟩] = .ran 3 "Justfile" := by
   decide
 
+/-- **the candidate names are the documented ones**: `JUSTFILE_NAMES`, read from src/search.rs on
+every run, is `justfile` and `.justfile` and nothing else; a file is a candidate exactly when its
+name is one of the two in some letter case -/
+theorem candidate_names_are_documented :
+    Generated.justfileNames = ["justfile", ".justfile"] ∧
+    isCandidate "jUSTfile" = true ∧ isCandidate ".JustFile" = true ∧
+    isCandidate "justfile.just" = false ∧ isCandidate "Justfile " = false := by
+  decide
+
 end Just.Props.C16
